@@ -11,6 +11,12 @@ ranges only (gen_c10.Window / gen_c10.VSpec are the executable contract):
   * Slice<Slice<T>>::flatten leaves every reported range as it was;
   * pool buffers: set_capacity(n) gives capacity min(n, full size) (nothing for 0), length
     min(length, capacity), content untouched; the view contract holds in every capacity state;
+  * reserve: a fixed-capacity buffer (arrays, ArrayVec, pool buffer, VectoredBufIter) accepts a
+    request iff it fits into capacity - initialised length; extend_from_slice / WriterRef::write
+    then append exactly behind the initialised bytes, or report the error and change nothing;
+    length <= capacity always, nothing outside the written range moves;
+  * every view of the initialised bytes (as_init, as_mut_slice, Slice's DerefMut, the root's
+    Deref / DerefMut) has the same offset and length;
   * no panic as long as the program stays inside the contract.
 Programs that leave the contract (out-of-range begin/end, fills beyond the capacity, raw
 set_len) are not judged from that point on.
@@ -176,6 +182,51 @@ def judge_buffer(case, out):
                     raise Leave
             elif code == 6:
                 w.flatten()      # the window and every range stay as they are
+            elif code in (8, 9, 10):
+                ok = w.reserve_ok(a)
+                grow = ok and m.growable() and a > m.cap - m.rlen
+                if not bare:
+                    res = o.take()
+                    n = o.take() if code == 10 else None
+                    if res != (0 if ok else 1):
+                        vd.add(tag(), "%s(%d) with %d of %d bytes initialised (view: len %d, capacity %d) "
+                                      "answered %s, expected %s"
+                               % ({8: "extend_from_slice", 9: "reserve", 10: "WriterRef::write"}[code], a,
+                                  m.rlen, m.cap, w.rng()[1], w.rng()[2], "Ok" if res == 0 else "an error",
+                                  "Ok" if ok else "an error"))
+                        return vd.result()
+                    if code == 10 and n != (a if ok else 0):
+                        vd.add(tag(), "WriterRef::write reported %d bytes, expected %d" % (n, a if ok else 0))
+                    if grow:
+                        # the new capacity is the allocator policy's business: read it from the
+                        # next print (writable end of an end-less view), it must hold the request
+                        nxt = o.v[o.i:o.i + 5]
+                        newcap = nxt[2] + nxt[3] if len(nxt) == 5 else 0
+                        if newcap < m.rlen + a:
+                            vd.add(tag(), "reserve(%d) succeeded but the capacity is %d for %d initialised "
+                                          "bytes" % (a, newcap, m.rlen))
+                            return vd.result()
+                        m.grow(newcap)
+                elif grow:
+                    raise Leave      # capacity unknown without the output
+                if code != 9:
+                    if ok:
+                        w.extend(j, a)
+                    j += 1
+            elif code == 11:
+                eo, el, _ = w.rng()
+                if not bare:
+                    got = [tuple(o.take_n(2)) for _ in range(4)]
+                    exp = [(eo, el), (eo, el), (0, m.rlen), (0, m.rlen)]
+                    if got != exp:
+                        names = ["as_mut_slice", "Slice::deref_mut / as_init", "root Deref", "root DerefMut"]
+                        bad = [("%s (%d,%d) expected (%d,%d)" % (names[i], *got[i], *exp[i]))
+                               for i in range(4) if got[i] != exp[i]]
+                        vd.add(tag(), "views of the initialised bytes disagree: " + "; ".join(bad))
+                        return vd.result()
+                m.bump(eo, el)
+            elif code == 12:
+                m.bump(0, m.rlen)
             elif code == 7:
                 # shrinking the capacity below bytes a view covers is not a use of the view
                 if w.layers and a != 0 and min(a, m.full) < m.rlen:
@@ -275,6 +326,7 @@ def judge_vectored(case, out):
 
     def enter_member(idx, off):
         st["it"] = {"idx": idx, "win": Window(ms[idx], off), "filled": False, "off": off}
+        st["it"]["win"].fixed_base = True
 
     def recorded(fill, cls):
         """run a recorded fill of the contract; label it when the members are not in
@@ -346,6 +398,30 @@ def judge_vectored(case, out):
                         st["it"] = None
                         if not bare and o.take() != 9:
                             vd.add("contract", "next() past the last member did not return Err")
+                elif code == 13:
+                    if it["filled"] and st["diverged"] is None:
+                        st["diverged"] = "viter-after-fill"
+                    if w.filled_after_uninit and st["diverged"] is None:
+                        st["diverged"] = "uninit-after-fill"
+                    ok = w.reserve_ok(a)
+                    if not bare:
+                        res = o.take()
+                        if res != (0 if ok else 1):
+                            t = general_tag()
+                            vd.add(t, "extend_from_slice(%d) through VectoredBufIter (member: %d of %d bytes "
+                                      "initialised) answered %s" % (a, w.m.rlen, w.m.cap,
+                                                                    "Ok" if res == 0 else "an error"))
+                            return vd.result()
+                    if ok:
+                        o_before, l_before = w.rng()[0], w.rng()[1]
+                        if it["filled"] and st["diverged"] is None:
+                            st["diverged"] = "viter-after-fill"
+                        if any(x.rlen > 0 for x in ms[it["idx"] + 1:]) and st["suspect"] is None:
+                            st["suspect"] = "vectored-set-len-by-capacity"
+                        recorded(lambda: w.extend(j, a), "vectored-set-len-by-capacity")
+                        if (o_before - it["off"]) + l_before + a > 0 and a > 0:
+                            it["filled"] = True
+                    j += 1
                 elif code == 10:
                     w.slice(a, None)
                 elif code == 11:
@@ -440,7 +516,7 @@ def known(case, out, what):
         "vectored-set-len-by-capacity": lambda: case[0] == 2 and (3 in codes or 5 in codes),
         "advance-vec-to-noop": lambda: case[0] == 2 and 3 in codes,
         "vslice-uninit-offset": lambda: case[0] == 2 and (1 in codes or 2 in codes),
-        "viter-after-fill": lambda: case[0] == 2 and 5 in codes and (6 in codes or 9 in codes),
+        "viter-after-fill": lambda: case[0] == 2 and 5 in codes and (6 in codes or 9 in codes or 13 in codes),
         "uninit-after-fill": lambda: (11 if case[0] == 2 else 2) in codes,
         "bounded-slice-advance": lambda: ((12 in codes and 9 in codes) if case[0] == 2
                                           else (1 in codes and 4 in codes)),
